@@ -15,13 +15,14 @@
      21 alloc_node first.store#0   22 alloc_node last_head.store   23 alloc_node first.store#1
      24 push tail.next.store       25 push tail.block.store        26 push tail.index.store
      30 pop tail.index.load  31 pop head.next.load  32 pop head.block.store  33 pop head.index.store
+     34 BlockNode::get slot.read (val = offset, obj = the slot): every slot read of pop and bulk_pop
      40 .. 43 the same four sites of bulk_pop        50 peek tail.index.load
      60 len head.index.load  61 len tail.index.load   (producer's transitions if that thread logged plen.call)
 
    Accesses without a hook are taken together with the preceding recorded event of the same
    thread, which is where the baton scheduler executes them: the unsync_load of head.block in
-   alloc_node right after the slot write (20), the slot reads right after the tail.index load
-   (30/40/50).  So one event is one or several consecutive transitions of ONE role.
+   alloc_node right after the slot write (20), the slot read of peek right after its tail.index load
+   (50).  So one event is one or several consecutive transitions of ONE role.
 
    The object of every atomic event is tied in the same way to the memory word of the model
    (tail.index, head.index, tail.block, head.block, first, last_head, the `next` field of block b):
@@ -171,8 +172,12 @@ Definition accept_core (sx : ast) (e : list Z) : option ast :=
     | 25 => ptr_ev s x (ppc_eqb (pp p) PSetT && inp a) PStep v (fun s' => tblk (M s'))
     | 26 => fin s (ppc_eqb (pp p) PPub && inp a) [PStep] (fun s' => zn (tidx (M s')) v) (fun _ => Some x)
     (* ---- pop / bulk_pop / peek ---- *)
-    | 30 => fin s (at_c CTail OPop && inc a 1%nat && zn (tidx m) v) (load_acts s) reads_done (fun _ => Some x)
-    | 40 => fin s (at_c CTail OBulk && inc a 2%nat && zn (tidx m) v) (load_acts s) reads_done (fun _ => Some x)
+    | 30 => fin s (at_c CTail OPop && inc a 1%nat && zn (tidx m) v) [CStep] (fun _ => true) (fun _ => Some x)
+    | 40 => fin s (at_c CTail OBulk && inc a 2%nat && zn (tidx m) v) [CStep] (fun _ => true) (fun _ => Some x)
+    (* BlockNode::get slot.read (val = offset in the block, obj = the slot): one read of pop / of the bulk_pop loop *)
+    | 34 => fin s (cpc_eqb (cp c) CRead && ((op_eqb (cop c) OPop && inc a 1%nat) || (op_eqb (cop c) OBulk && inc a 2%nat)) &&
+                   zn (ck c mod B) v) [CStep] (fun _ => true)
+                (fun _ => option_map (set_sob x) (bind (sob x) o (hblk m * B + ck c mod B)%nat))
     | 50 => fin s (at_c CTail OPeek && inc a 5%nat && zn (tidx m) v) (load_acts s) reads_done (fun _ => Some x)
     | 31 => ptr_ev s x (at_c CNext OPop && inc a 1%nat) CStep v (fun s' => cnh (C s'))
     | 41 => ptr_ev s x (at_c CNext OBulk && inc a 2%nat) CStep v (fun s' => cnh (C s'))
